@@ -13,15 +13,15 @@ open Rzmq
 
 /-- the pairing relation is symmetric: both endpoints reach the same verdict -/
 theorem compat_symmetric (x y : SockName) : typesCompatible x y = typesCompatible y x := by
-  sorry
+  cases x <;> cases y <;> decide
 
 /-- ZMTP/2.0 and ZMTP/3.x use the same table (`socket_types_compatible`) -/
 theorem v2_v3_same_table : Gen.v2UsesSharedTable = 1 ∧ Gen.v3ValidatesSocketType = 1 := by
-  sorry
+  decide
 
 /-- the inproc table never accepts a pair that ZMTP refuses … -/
 theorem inproc_subset_zmtp (x y : SockName) (h : (x, y) ∈ Gen.inprocCompat) : typesCompatible x y = true := by
-  sorry
+  revert h; cases x <;> cases y <;> decide
 
 /-- … but (KNOWN FINDING C05:inproc-table-narrower) it refuses valid pairings that ZMTP accepts: the verdict is
 not the same over inproc. Exactly these pairs of rzmq's eight socket types differ. -/
@@ -30,14 +30,14 @@ theorem inproc_differs_counterexample :
       ([SockName.PUB, .SUB, .REQ, .REP, .DEALER, .ROUTER, .PULL, .PUSH].filter fun y =>
         typesCompatible x y && !Gen.inprocCompat.contains (x, y)).map fun y => (x, y))
     = [(.REQ, .ROUTER), (.REP, .DEALER), (.DEALER, .REP), (.DEALER, .DEALER), (.ROUTER, .REQ), (.ROUTER, .ROUTER)] := by
-  sorry
+  decide
 
 -- determinism of the pair (Kahn network) ----------------------------------------------------------------
 
 /-- what an endpoint has emitted only grows (as a byte string) when it receives more -/
 theorem emitted_mono (spec : AbsSpec) (hw : WellBehaved spec) (cfg : Cfg) (x y : Bytes) :
     emitted spec cfg x <+: emitted spec cfg (x ++ y) := by
-  sorry
+  exact emitted_mono' hw (List.prefix_append _ _)
 
 /-- Invariant of every schedule: each engine's state is the one reached by feeding it, in one read, exactly the
 bytes delivered to it so far; and what is in flight is what the sender emitted minus what was delivered. -/
@@ -50,7 +50,9 @@ theorem pair_state_determined (spec : AbsSpec) (hw : WellBehaved spec) (cfgA cfg
     ∧ p.appB = (onNetworkBytes spec cfgB 0 Eng.init p.recvB).2.app
     ∧ p.recvB ++ p.ab = emitted spec cfgA p.recvA
     ∧ p.recvA ++ p.ba = emitted spec cfgB p.recvB := by
-  sorry
+  intro p
+  have h := PSD.of_start (cfgA := cfgA) (cfgB := cfgB) hw s hne
+  exact ⟨h.stA, h.stB, h.appA, h.appB, h.emA, h.emB⟩
 
 /-- Confluence: whatever the delivery schedule (which direction next, how many bytes), two schedules that
 deliver everything end in the same engine states with the same application-visible actions. -/
@@ -61,7 +63,15 @@ theorem pair_confluent (spec : AbsSpec) (hw : WellBehaved spec) (cfgA cfgB : Cfg
     let p1 := Pair.run spec cfgA cfgB Pair.start s1
     let p2 := Pair.run spec cfgA cfgB Pair.start s2
     p1.a = p2.a ∧ p1.b = p2.b ∧ p1.appA = p2.appA ∧ p1.appB = p2.appB := by
-  sorry
+  intro p1 p2
+  have q1 := PSD.of_start (cfgA := cfgA) (cfgB := cfgB) hw s1 hne1
+  have q2 := PSD.of_start (cfgA := cfgA) (cfgB := cfgB) hw s2 hne2
+  obtain ⟨hA, hB⟩ := complete_recv_eq hw s1 s2 hne1 hne2 h1 h2
+  refine ⟨?_, ?_, ?_, ?_⟩
+  · show p1.a = p2.a; rw [q1.stA, q2.stA, hA]
+  · show p1.b = p2.b; rw [q1.stB, q2.stB, hB]
+  · show p1.appA = p2.appA; rw [q1.appA, q2.appA, hA]
+  · show p1.appB = p2.appB; rw [q1.appB, q2.appB, hB]
 
 -- convergence and agreement -------------------------------------------------------------------------------
 
@@ -82,7 +92,13 @@ theorem null_handshake_converges (spec : AbsSpec) (hw : WellBehaved spec) (cfgA 
     let p := Pair.run spec cfgA cfgB Pair.start s
     p.a.phase = .data ∧ p.b.phase = .data ∧ p.a.version = some .v3 ∧ p.b.version = some .v3
     ∧ p.appA = [handshakeOf cfgB] ∧ p.appB = [handshakeOf cfgA] := by
-  sorry
+  intro p
+  obtain ⟨h1, h2, h3, h4⟩ := null_converges hw hA hB hrole hcompat hrA hrB s hne hq
+  refine ⟨?_, ?_, ?_, ?_, h3, h4⟩
+  · show p.a.phase = _; rw [h1]; rfl
+  · show p.b.phase = _; rw [h2]; rfl
+  · show p.a.version = _; rw [h1]; rfl
+  · show p.b.version = _; rw [h2]; rfl
 
 /-- socket types that are not a valid pairing: neither side ever reports a completed handshake, and once
 everything (including end-of-stream) is delivered both are closed — nobody waits forever. -/
@@ -94,7 +110,7 @@ theorem incompatible_types_both_fail (spec : AbsSpec) (hw : WellBehaved spec) (c
     let p := Pair.run spec cfgA cfgB Pair.start s
     p.a.phase = .closed ∧ p.b.phase = .closed
     ∧ (∀ x ∈ p.appA, isHandshakeComplete x = false) ∧ (∀ x ∈ p.appB, isHandshakeComplete x = false) := by
-  sorry
+  exact incompat_both_fail hw hA hB hrole hcompat hrA hrB s hq
 
 /-- mechanism mismatch (NULL against PLAIN): both fail, neither completes -/
 theorem mechanism_mismatch_both_fail (spec : AbsSpec) (hw : WellBehaved spec) (cfgA cfgB : Cfg)
@@ -103,7 +119,7 @@ theorem mechanism_mismatch_both_fail (spec : AbsSpec) (hw : WellBehaved spec) (c
     let p := Pair.run spec cfgA cfgB Pair.start s
     p.a.phase = .closed ∧ p.b.phase = .closed
     ∧ (∀ x ∈ p.appA, isHandshakeComplete x = false) ∧ (∀ x ∈ p.appB, isHandshakeComplete x = false) := by
-  sorry
+  exact mismatch_both_fail hw hA hB s hq
 
 /-- wrong PLAIN credentials: the server never completes; after end-of-stream both are closed -/
 theorem wrong_credentials_both_fail (spec : AbsSpec) (hw : WellBehaved spec) (cfgA cfgB : Cfg)
@@ -115,6 +131,6 @@ theorem wrong_credentials_both_fail (spec : AbsSpec) (hw : WellBehaved spec) (cf
     let p := Pair.run spec cfgA cfgB Pair.start s
     p.a.phase = .closed ∧ p.b.phase = .closed
     ∧ (∀ x ∈ p.appA, isHandshakeComplete x = false) ∧ (∀ x ∈ p.appB, isHandshakeComplete x = false) := by
-  sorry
+  exact creds_both_fail hw hA hB hcl hsrv hu hp hwrong hmax s hq
 
 end Rzmq.C05
